@@ -106,7 +106,15 @@ func cmdRun(prop, tier, only string, verbose bool, workers int, solverBin string
 		writeEvidence(prop, tier, seed, nil, nil, time.Since(t0), map[string]interface{}{"load_error": err.Error()}, 0)
 		return 0
 	}
+	for _, d := range ld.dropped {
+		fmt.Printf("INCONCLUSIVE harness file dropped (does not type-check against the current tree): %s\n", trunc(d, 300))
+	}
 	hs := ld.harnesses(prop, only)
+	if len(hs) == 0 && len(ld.dropped) > 0 {
+		fmt.Printf("INCONCLUSIVE property=%s no harness of this property binds to the current tree\n", prop)
+		writeEvidence(prop, tier, seed, nil, nil, time.Since(t0), map[string]interface{}{"load_error": strings.Join(ld.dropped, "; ")}, 0)
+		return 0
+	}
 	if len(hs) == 0 {
 		fmt.Printf("ENGINE-ERROR no harness for property %s\n", prop)
 		return 3
